@@ -761,7 +761,15 @@ class InterpreterFunction(_function_base.SignedFunction):
         )
       else:
         log.info("Skipping call to %r and using cached return", self.name)
-        ret = typeguard_return or old_ret.AssignToNewVariable(node)
+        if any(b.IsVisible(node) for b in old_ret.bindings):
+          ret = old_ret.AssignToNewVariable(node)
+        else:
+          # The cached bindings originate inside the earlier call. If that call
+          # does not lie on a path to this one (e.g. the two calls sit in
+          # different branches of an `if`), they are not visible here and the
+          # result would silently be dropped: recycle only the values.
+          ret = self.ctx.program.NewVariable(old_ret.data, [], node)
+        ret = typeguard_return or ret
         if self._store_call_records:
           # Even if the call is cached, we might not have been recording it.
           self._call_records.append((callargs, ret, node))
